@@ -127,7 +127,7 @@ func c14DagDepth(sh c14Shape, g uint64) (int, bool) {
 }
 
 type c14Result struct {
-	depth int
+	depth  int
 	capErr bool
 	other  string
 }
@@ -265,7 +265,7 @@ func c14Eval(sh c14Shape, g uint64) (fails [][4]interface{}, dag bool, queries i
 
 func runC14(c *Ctx) {
 	debug.SetMaxStack(64 << 20)
-	shapes := []c14Shape{{2, 1}}
+	shapes := []c14Shape{{2, 1}, {1, 2}}
 	if !c.Quick() {
 		shapes = []c14Shape{{2, 1}, {1, 2}, {3, 1}, {2, 2}}
 	}
